@@ -330,3 +330,51 @@ Proof.
       * assert (nth (S i) locs 0 < nth j locs 0) by (apply Hs; lia). lia.
     + specialize (Hall i Hgt). destruct H1 as [H1|H1]; lia.
 Qed.
+
+(* ------------------------------------------------------------------ bsearch_spec *)
+(* row i of the table decodes (location field) to Direct (nth i locs) *)
+Definition rows_decode (dbg : bool) (hb : sbases) (h : hdr) (size o0 : N)
+           (rows : list (list byte * list byte)) (locs : list N) : Prop :=
+  length locs = length rows /\
+  forall i r, nth_error rows i = Some r ->
+    decode_at dbg (h_be h) (h_enc h) (hdr_pp hb h) (o0 + N.of_nat i * (size * 2)) (fst r) = Ok (Direct (nth i locs 0)).
+
+(* the search postcondition for an arbitrary (possibly unsorted) table *)
+Definition search_post (locs : list N) (a : N) (k : nat) : Prop :=
+  (k < length locs)%nat /\
+  (k = 0%nat \/ nth k locs 0 <= a) /\
+  ((S k < length locs)%nat -> a < nth (S k) locs 0 \/ nth k locs 0 = a).
+
+Lemma bsearch_any_lem : forall dbg hb h size a o0 rows locs extra,
+  tbl_field_size (h_enc h) = Some size -> wf_rows size rows -> rows <> [] ->
+  h_count h = N.of_nat (length rows) -> h_table h = mkrd o0 (flat rows ++ extra) ->
+  rows_decode dbg hb h size o0 rows locs ->
+  N.of_nat (length rows) * (size * 2) < 2 ^ 64 ->
+  exists k r, nth_error rows k = Some r /\ search_post locs a k /\
+    hdr_lookup dbg hb h a =
+    decode_at dbg (h_be h) (h_enc h) (hdr_pp hb h) (o0 + N.of_nat k * (size * 2) + size) (snd r).
+Proof.
+  intros dbg hb h size a o0 rows locs extra Hs Hwf Hne Hc Ht [Hlen Hdec] Hmul.
+  destruct (hdr_lookup_rows dbg hb h size a o0 rows locs Hs Hwf Hdec Hmul extra Hne Hc Ht) as (i & r & Hi & Hp & Hl).
+  exists i, r. split; [exact Hi|]. split; [|exact Hl].
+  assert (Hin : (i < length rows)%nat) by (apply nth_error_Some; congruence).
+  unfold bs_post in Hp. unfold search_post. rewrite Hlen. split; [exact Hin|exact Hp].
+Qed.
+
+Lemma bsearch_spec_lem : forall dbg hb h size a o0 rows locs extra,
+  tbl_field_size (h_enc h) = Some size -> wf_rows size rows -> rows <> [] ->
+  h_count h = N.of_nat (length rows) -> h_table h = mkrd o0 (flat rows ++ extra) ->
+  rows_decode dbg hb h size o0 rows locs ->
+  N.of_nat (length rows) * (size * 2) < 2 ^ 64 ->
+  strictly_sorted locs ->
+  exists r, nth_error rows (bs_index locs a) = Some r /\
+    hdr_lookup dbg hb h a =
+    decode_at dbg (h_be h) (h_enc h) (hdr_pp hb h)
+      (o0 + N.of_nat (bs_index locs a) * (size * 2) + size) (snd r).
+Proof.
+  intros dbg hb h size a o0 rows locs extra Hs Hwf Hne Hc Ht Hd Hmul Hsorted.
+  destruct (bsearch_any_lem dbg hb h size a o0 rows locs extra Hs Hwf Hne Hc Ht Hd Hmul) as (k & r & Hk & Hp & Hl).
+  destruct Hp as (Hlt & Hp).
+  assert (Hk' : k = bs_index locs a) by (eapply bs_post_unique; eauto).
+  subst k. exists r. split; assumption.
+Qed.
